@@ -5,11 +5,16 @@ Pipeline A: TLC drives the monitor of tla/Styling.tla with an arbitrary token-st
   C17_WellBracketed, C17_StepRules; named well-formed streams must be accepted and named
   bad streams rejected for the stated clause (ASSUMEs of MCStyling).
 Pipeline B/C: harness/cmd/styling enumerates inputs, runs the real styling.NewDecoder
-  (Next/Token/Style/Quote) and styling.Scan under a bufio.Scanner over a whole-input
-  reader (reference) and over every 2-way split, one byte per Read, iotest.OneByteReader,
-  iotest.DataErrReader(...); every reference run, every run that differs from its
-  reference and a seeded sample of the equal ones are written as traces; TLC validates
-  them against TrStyling (batch scheme, shards validated in parallel)."""
+  (Next/Token/Style/Quote) and styling.Scan under a bufio.Scanner over every DELIVERY of
+  every document.  A delivery = where the input is cut (one big read, every 2-way split,
+  one octet per Read, pieces of 2/3 octets, seeded multi-way cuts) x how the reader signals
+  the end (io.EOF in a separate empty read | together with the last data) x (0, nil) reads
+  in between or not; plus the iotest readers.  The whole-input read with a separate EOF is
+  the reference run of a document.  Every reference run, every run that differs from its
+  reference and a seeded sample of the equal ones are written as traces that carry the
+  reads the decoder actually saw; TLC validates them against TrStyling (legal delivery,
+  every clause of the monitor, same observations as the reference run = chunk independence;
+  batch scheme, shards validated in parallel)."""
 import concurrent.futures
 import json
 import os
@@ -85,18 +90,22 @@ def show(evs):
 def cause(meta, why):
     """a coarse grouping key so that one root cause gives one replay file, not thousands"""
     inp = bytes(meta["input"])
-    reader = re.sub(r"@\d+", "", meta["reader"])
-    if max(len(l) for l in inp.split(b"\n")) >= 65536:
+    reader = re.sub(r"zero-reads=\d+", "zero-reads", re.sub(r"@\d+|\[[\d,]*\]", "", meta["reader"]))
+    with_data = "DataErr" in reader or "eof-with-data" in reader
+    lines = inp.split(b"\n")
+    if max(len(l) for l in lines) >= 65536:
         feat = "line >= 64 KiB"
-    elif b"```" in inp and "DataErr" in reader:
-        feat = "pre block, EOF delivered with data"
+    elif b"```" in inp and any(re.match(rb"[> ]*```.", l) for l in lines[1:]):
+        feat = "pre block with a line that starts like a fence"
+    elif b"```" in inp and b">" in inp:
+        feat = "pre block and block quote"
     elif b">" in inp:
         feat = "block quote"
     elif b"```" in inp:
         feat = "pre block"
     else:
         feat = "other"
-    return (why.split(":")[0], meta["api"], feat, "DataErrReader" if "DataErr" in reader else "partial reads")
+    return (why.split(":")[0], meta["api"], feat, "EOF delivered with the last data" if with_data else "EOF in a separate read")
 
 
 def report(ctx, base, results, limit=12):
@@ -112,6 +121,10 @@ def report(ctx, base, results, limit=12):
             g["n"] += 1
             if g["first"] is None or len(meta[t]["input"]) < len(g["first"][2]["input"]):
                 g["first"] = (k, t, meta[t], line, why)
+    harness = [g for key, g in groups.items() if key[0].startswith("HARNESS")]
+    if harness:
+        k, t, meta, line, why = harness[0]["first"]
+        raise verif.Undecided("the harness misbehaved, no verdict: %s (input %s, reader %s)" % (why, text(meta["input"]), meta["reader"]))
     shown = sorted(groups.items(), key=lambda kv: -kv[1]["n"])[:limit]
     traces = {}
     for k in sorted({g["first"][0] for _, g in shown}):
@@ -125,6 +138,7 @@ def report(ctx, base, results, limit=12):
         rej = [e for e in tr if e["_line"] == line]
         ref = tr[0].get("ref") or []
         got = [{x: v for x, v in e.items() if x != "_line"} for e in tr[1:]]
+        reads = {"cumulative_octets_after_each_read": tr[0].get("rd"), "eof": tr[0].get("eof")}
         inp = meta["input"]
         short = text(inp) if len(inp) <= 80 else "%s... (%d octets)" % (text(inp[:20]), len(inp))
         what = "%s | %s, input %s, reader %s: observed %s%s (%d rejected traces of this kind: %s)" % (
@@ -132,7 +146,7 @@ def report(ctx, base, results, limit=12):
             (" ; whole-input read gave " + show(ref)[:400]) if ref else "", g["n"], "/".join(key[2:]))
         big = len(inp) > 2000
         ctx.violation(what, {"family": "styling", "input": inp, "api": meta["api"], "reader": meta["reader"],
-                             "clause": why, "rejected_line": line, "rejected_event": (rej[0] if rej and not big else None),
+                             "reads_seen_by_the_decoder": reads if not big else tr[0].get("eof"), "clause": why, "rejected_line": line, "rejected_event": (rej[0] if rej and not big else None),
                              "observed": got if not big else show(got), "whole_input_read": ref if not big else show(ref)})
     return total, {"/".join(k): g["n"] for k, g in groups.items()}
 
@@ -159,6 +173,8 @@ def selftest(ctx, drv):
     m[j]["m"] = [b.replace("SpanPre", "SpanEmph") for b in m[j]["m"]]; muts.append(("span start kind changed", m))
     m = dup(); m[2]["data"][0] ^= 1; muts.append(("one octet of a token changed", m))
     m = dup(); m[0]["ref"] = json.loads(json.dumps(good[1:])); m[2]["q"] += 1; muts.append(("quote depth differs from the reference run", m))
+    m = dup(); m[0]["rd"] = [len(inp) - 1, len(inp) - 1]; muts.append(("recorded reads end before the last octet", m))
+    m = dup(); m[0]["eof"] = "with-data"; muts.append(("recorded end style contradicts the recorded reads", m))
     p = ctx.path("selftest_mut.ndjson")
     line = 0
     with open(p, "w") as f:
@@ -189,7 +205,7 @@ def run(ctx):
     if ctx.replay:
         case = json.load(open(ctx.replay))["case"]
         cf = ctx.path("case.json")
-        json.dump({"input": case["input"], "api": case["api"]}, open(cf, "w"))
+        json.dump({"input": case["input"], "api": case["api"], "reader": case.get("reader", "")}, open(cf, "w"))
         shards = par = 1
         ctx.run_driver(drv, ["replay", cf, base, out], env={"STYLING_SHARDS": "1"}, timeout=600)
     else:
@@ -198,6 +214,9 @@ def run(ctx):
     ctx.log("driver: %d inputs, %d runs (%d equal to the whole-input read, %d differ on %d inputs), %d traces / %d events to validate" % (
         res["inputs"], res["runs"], res["same_as_whole"], res["differ_from_whole"], res["inputs_with_differences"],
         res["traces"], res["events"]))
+    styles = res.get("runs_by_eof_style", {})
+    if not ctx.replay and not (styles.get("separate", 0) > 0 and styles.get("with-data", 0) > 0):
+        raise verif.Undecided("the delivery dimension is degenerate: runs by end-of-input style %s" % styles)
     results = validate_shards(ctx, base, shards, par)
     tstates = sum(r.distinct for _, r in results.values())
     nrej = sum(len(rej) for rej, _ in results.values())
@@ -217,13 +236,15 @@ def run(ctx):
         "equal_runs_also_validated_by_tlc_sample": res["same_sampled_for_tlc"],
         "distinct_nontrivial": res["distinct_observation_sequences"],
         "rejected": nrej, "rejected_by_kind": groups, "differ_by_reader": res["differ_by_reader"],
+        "inputs_by_class": res["inputs_by_class"], "runs_by_end_of_input_style": styles,
         "binding_selftest_corruptions_rejected": nself,
         "exhaustive": True, "exhaustive_scope": "all strings of <= %d symbols" % res["exhaustive_len"],
-        "design_check": "MCStyling: arbitrary token-stream generator (tokens of <= 2 octets, any subset of 7 style bits, right or wrong data, end with/without panic) over all 40 inputs of <= 3 symbols of {*, a, newline}, streams of <= %d observations; 5 named good and 11 named bad streams" % (5 if quick else 6),
-        "rule": "inputs = every string of <= %d symbols over {* _ ~ ` > space newline a no-break-space 0xC2} + %d seeded strings of %d..%d symbols + 16 fence/quote/span templates x 10 x 10 fillers + 28 lines of 4095..70000 octets (decoder only); each through NewDecoder and through Scan+bufio.Scanner; readers: whole (reference), every 2-way split, 1 octet per Read, iotest.OneByteReader, iotest.DataErrReader, DataErrReader(OneByteReader) (long lines: chunks of 1000/4096, HalfReader, DataErrReader). TLC validated: every reference run, every DISTINCT run that differs from its reference (carrying the reference; rejected under C17_ChunkIndependent), and a 0.2%% seeded sample of the runs the driver found equal to their reference (carrying the reference; accepted). Equality of the remaining runs with their reference was established by the driver by comparing an injective encoding of (data, mask, quote, info, end) sequences. distinct_nontrivial = distinct observation sequences" % (
-            res["exhaustive_len"], res["sampled_n"], res["exhaustive_len"] + 1, res["sampled_len"]),
+        "design_check": "MCStyling: arbitrary token-stream generator (tokens of <= 2 octets, any subset of 7 style bits, right or wrong data, end with/without panic) over all 40 inputs of <= 3 symbols of {*, a, newline}, streams of <= %d observations; 5 named good and 11 named bad streams; a named pair of streams of one pre-block document that differ only under a delivery with EOF on the last data (rejected as chunk dependent); 6 legal and 6 illegal named deliveries" % (5 if quick else 6),
+        "rule": "documents = every string of <= %d symbols over {* _ ~ ` > space newline a no-break-space 0xC2} + %d seeded strings of %d..%d symbols + 16 fence/quote/span templates x 10 x 10 fillers + %d pre-block documents (opening fence with/without info string; 0..2 inner lines out of {a, empty, ```go, ````, ``` x, > ```, ``, space```}; closed or unterminated; an optional following line out of {b, *b*, > q, ```go}; every line under the quote prefix '', '> ', '>> ' (thorough: also '>', '> > '), the following line under the same prefix or none; with and without trailing newline; + seeded longer blocks whose quote prefix changes per line) + 28 lines of 4095..70000 octets (decoder only); each through NewDecoder and through Scan+bufio.Scanner. Deliveries of a document = cuts x end-of-input style: cuts = one big read (reference: bytes.Reader), every 2-way split (documents <= 64 octets), 1 octet per Read, pieces of 2 and 3 octets, 1-4 seeded random multi-way cuts, iotest.OneByteReader (long lines: pieces of 1000/4096, HalfReader); end style = io.EOF in a separate empty read | io.EOF together with the last data (own reader and iotest.DataErrReader) ; (0, nil) reads in front of every piece and of the EOF (every split of the small and structured documents, the random cuts). Every reader is wrapped in a recorder: each trace carries the reads the decoder performed, TLC requires them to be a legal delivery (LegalDelivery). TLC validated: every reference run, every DISTINCT run that differs from its reference (carrying the reference; rejected under C17_ChunkIndependent), and a 0.2%% seeded sample of the runs the driver found equal to their reference (carrying the reference; accepted). Equality of the remaining runs with their reference was established by the driver by comparing an injective encoding of (data, mask, quote, info, end) sequences. distinct_nontrivial = distinct observation sequences" % (
+            res["exhaustive_len"], res["sampled_n"], res["exhaustive_len"] + 1, res["sampled_len"], res["inputs_by_class"].get("pre-block documents", 0)),
         "samples": (res["samples"] or [])[:2],
     }, assumptions=["a token carries at most one span directive (the documented token model of package styling)",
                     "'inside a preformatted span' is judged on the monitor's span stack; 'inside a preformatted block' on the token's own BlockPre bit",
                     "Next is given up after 2*len+16 calls (runaway)",
-                    "readers never return (0, nil) and never fail: only the ways of cutting the input vary"])
+                    "readers never fail with an error other than io.EOF and return at most 2 consecutive (0, nil) reads (bufio.Scanner gives up after 100)",
+                    "chunk independence is judged against one reference delivery per document (one read of the whole input, io.EOF in a separate read): equality with the reference for all deliveries implies pairwise equality"])
